@@ -1,5 +1,6 @@
 import IndicatifModel.Model.Bar
 import IndicatifModel.Proofs.Rows
+import IndicatifModel.Proofs.BarReq
 /-!
 # C04 — finishing or dropping always paints the final state (single bar, model level)
 -/
@@ -59,6 +60,20 @@ theorem C04_drop (b : Bar) (now : Nat) :
 /-- the clearing kind paints no bar line -/
 theorem C04_clear_paints_nothing (b : Bar) : (finalState b .andClear).status = .doneHidden := by
   unfold finalState; cases b.len <;> rfl
+
+/-- **C04 on the terminal.** Whatever the limiter and the position gate say and however recently the bar was drawn, a
+finishing call on a bar whose terminal is in the redraw-integrity state completes a draw; afterwards the rows down to the cursor
+are the printed lines followed by the rendering of the final state — position at the length for the finishing kinds, unchanged
+for the abandoning ones, the supplied message, no line at all for the clearing kind (`C04_finish_paints`, `finalState_pos`,
+`C04_clear_paints_nothing`) — with no remnant of the previous frame. (Scope as in `C01_bar_history`: unit-width glyphs, the
+final frame fits and does not start with an empty line.) -/
+theorem C04_finish_on_terminal (W H : Nat) (fx : Fixes) (hW : 0 < W) (b : Bar) (t : Term) (logs frame : List (List Nat))
+    (now : Nat) (f : Finish) (hB : BInv W H fx b t logs frame) (hF : FrameOk W H (b.finishUsing now f).1) :
+    (b.finishUsing now f).2 ≠ [] ∧ (b.finishUsing now f).1.finished = true ∧
+    BInv W H fx (b.finishUsing now f).1 (t.execAll (b.finishUsing now f).2) logs (frameRows (b.finishUsing now f).1) := by
+  obtain ⟨h1, h2⟩ := finish_binv W H fx hW b t logs frame now f hB hF
+  obtain ⟨tt, htt, _, _⟩ := hB
+  exact ⟨h1, (C04_finish_paints b now f tt htt).2.1, h2⟩
 
 end IndicatifModel
 
